@@ -10,6 +10,15 @@ import (
 	"time"
 )
 
+// SrcPatch is a textual redirect applied to a copy of a /repo source file for
+// the native replay only (the file under /repo is never modified): it gives the
+// native run the same environment hook the symbolic run had.
+type SrcPatch struct {
+	File string `json:"file"` // relative to /repo
+	Old  string `json:"old"`
+	New  string `json:"new"`
+}
+
 type ReplayRecord struct {
 	Property  string            `json:"property"`
 	Harness   string            `json:"harness"`
@@ -19,6 +28,7 @@ type ReplayRecord struct {
 	Site      string            `json:"site"`
 	Vector    map[string]string `json:"vector"`
 	ReplayFn  string            `json:"replay_fn,omitempty"`
+	Patches   []SrcPatch        `json:"source_patches,omitempty"`
 	Redirects map[string]string `json:"redirects,omitempty"`
 }
 
@@ -47,6 +57,18 @@ func replayRecord(rec *ReplayRecord) (bool, string) {
 		i++
 		os.WriteFile(p, content, 0o644)
 		repl[path] = p
+	}
+	for k, sp := range rec.Patches {
+		src, err := os.ReadFile(filepath.Join(repoRoot, sp.File))
+		if err != nil {
+			return false, "replay patch: " + err.Error()
+		}
+		if strings.Count(string(src), sp.Old) != 1 {
+			return false, "replay patch does not apply to this tree: " + sp.File
+		}
+		p := filepath.Join(tmp, fmt.Sprintf("patched%d.go", k))
+		os.WriteFile(p, []byte(strings.Replace(string(src), sp.Old, sp.New, 1)), 0o644)
+		repl[filepath.Join(repoRoot, sp.File)] = p
 	}
 	call := rec.Harness + "()"
 	body := ""
